@@ -205,6 +205,31 @@ def gen_behaviours(module, out_path, num, depth, seed, per_prefix=4):
     return len(lines)
 
 
+def run_apalache(module, invs, expect_error=()):
+    """L1': symbolic check of refinement kernels at the REAL constants, all inputs (one SMT query each).
+    A refuted kernel means the transcription/specification is wrong, not the code: tool error."""
+    out = []
+    work = os.path.join(WORK, "apa_%d" % os.getpid())
+    for inv in list(invs) + list(expect_error):
+        t = time.time()
+        try:
+            rc, o = run(["apalache-mc", "check", "--init=Init", "--next=Next", "--inv=" + inv, "--length=0",
+                         "--out-dir=" + work, module], cwd=os.path.join(SPEC, "apalache"), timeout=1800)
+        except subprocess.TimeoutExpired:
+            raise ToolError("Apalache timed out on %s" % inv)
+        ok = "The outcome is: NoError" in o
+        err = "The outcome is: Error" in o
+        shutil.rmtree(work, ignore_errors=True)
+        if inv in expect_error:
+            if not err:
+                raise ToolError("Apalache did not refute %s (the control kernel): the symbolic check is vacuous" % inv)
+        elif not ok:
+            sys.stderr.write(o[-3000:])
+            raise ToolError("Apalache kernel %s of %s not discharged (specification/transcription at fault)" % (inv, module))
+        out.append({"kernel": inv, "outcome": "refuted (control)" if inv in expect_error else "NoError", "wall_s": round(time.time() - t, 1)})
+    return out
+
+
 def load_known():
     if not os.path.exists(KNOWN):
         return {"findings": []}
